@@ -98,6 +98,9 @@ def extend_docroot(root, files, rng, tier, pages=True):
     put('empty.txt', b''); put('a/empty.txt', b''); put('b/empty.html', b''); put('one.txt', b'1'); put('a/one.txt', b'2')
     for rel, size in [('big.bin', 200000), ('a/big.bin', 131073), ('big.txt', 65537)] + ([] if tier == 'quick' else [('b/big.bin', 6000001)]):
         put(rel, size=size, binary=rel.endswith('.bin')); info['big'].append('/' + rel)
+    # larger than anything the kernel buffers for a connection whose client does not read (tcp_wmem max 4 MiB): asked for by the
+    # stalled-reader probe only, not part of the request multiset
+    put('stall.bin', content=bytes((j * 7 + (j >> 11) * 13 + 5) & 0xff for j in range(4096)) * 1465, listed=False)
     # multi-byte and unusual names (the server does not percent-decode the path: they are asked for as they are)
     for rel in ['a/naïve.txt', 'a/файл.txt', 'b/日本.html', 'a/pl+us.txt', 'a/per%41cent.txt', 'a/perAcent.txt',
                 'a/x' * 40 + '.txt', 'a/' + 'long-name-' * 20 + '.txt']:
